@@ -57,6 +57,12 @@ def _history(draw):
                 op["c"] = [0.5, 0.0]
         op["seed"] = draw(st.integers(0, 2**20))
         ops.append(op)
+        if k == "add" and draw(st.integers(0, 3)) == 0:
+            # a tail far above the state's own precision but below the package default (1e-5), then an operation that
+            # truncates: the tail must survive when the state's precision is finer than the default
+            op["scale"] = ["tail", draw(st.sampled_from([0.1, 1.0, 10.0]))]
+            ops.append({"op": draw(st.sampled_from(["mpo_apply", "mpo_apply", "truncate", "add"])), "bond": draw(st.integers(1, 2)),
+                        "scale": 1.0, "seed": draw(st.integers(0, 2**20))})
     return {"kind": "history", "n": n, "dim": dim, "precision": 10.0 ** draw(st.integers(-12, -2)),
             "max_bond": draw(st.sampled_from([1, 2, 3, 4, 8, 16, 64, 64, 1024])),
             "bond0": draw(st.sampled_from([1, 2, 3, 5, 8, 16, 32])), "lowrank": draw(st.booleans()),
@@ -177,9 +183,14 @@ def check_case(case) -> Result:
             if mps.orthogonality_center != 0:
                 r.fail("truncate_centre_not_0", str(mps.orthogonality_center))
         elif k == "add":
-            sc = op["scale"] if not isinstance(op["scale"], list) else op["scale"][1] * prec
-            if isinstance(op["scale"], list):
-                r.label("add_near_precision")
+            if isinstance(op["scale"], list) and op["scale"][0] == "tail":
+                # geometric mean of the state's precision and the package default 1e-5 (only meaningful below the default)
+                sc = op["scale"][1] * float(np.sqrt(prec * 1e-5)) if prec < 1e-6 else 1e-3
+                r.label("add_tail_between_precision_and_default")
+            else:
+                sc = op["scale"] if not isinstance(op["scale"], list) else op["scale"][1] * prec
+                if isinstance(op["scale"], list):
+                    r.label("add_near_precision")
             other_f = _rand_mps(orng, n, dim, op["bond"], sc)
             other = MPS(other_f, precision=prec, max_bond_dim=cap, num_gpus_to_use=0, eigenstates=eig)
             od = tn.mps_to_dense(other.factors)
